@@ -19,7 +19,8 @@ EXPLANATION = (
     'the function\'s own exception propagates; the success path returns the value of get(timeout=<the limit '
     'argument>); every other exit raises TimeoutError; all callers of run_timeout handle TimeoutError.  NOT '
     'decided and not decidable by static analysis: every schedule-dependent clause (race at the limit, native '
-    'blocking, "nothing still running") - these are stated as limits of this check.')
+    'blocking, "nothing still running") - these are stated as limits of this check.'
+    ' The handler of the pool timeout touches no object of the caller before the worker is interrupted and joined.')
 
 
 def check(ctx):
